@@ -216,6 +216,12 @@ def chopped_lattice(draw, mode: str, graded: bool = False, **kw):
             return None
         fi = draw(st.sampled_from(big))
         rest = [m for m in fams[fi] if m != (chops[fi]["cell"], chops[fi]["gdir"])]
+        # half of the time prefer a second block that does not share a face with the first one, so that the two
+        # demands meet on a single edge or inside an un-chopped block between them
+        first_nodes = set(cell_nodes(case["dims"], chops[fi]["cell"]))
+        far = [m for m in rest if len(first_nodes & set(cell_nodes(case["dims"], m[0]))) < 4]
+        if far and draw(st.booleans()):
+            rest = far
         c, d = draw(st.sampled_from(rest))
         base = fam_count[fi]
         if base is None:
